@@ -353,15 +353,19 @@ def _r3(ctx):
     def kname(f):
         d = [s for s in f.node.body if isinstance(s, ast.Assign) and isinstance(s.targets[0], ast.Name) and
              isinstance(s.value, ast.Call) and isinstance(s.value.func, ast.Attribute) and s.value.func.attr == "_make_k"]
-        if len(d) != 1:
-            raise AnalysisError("%s: slope array from _make_k not found" % f.key)
-        return d[0].targets[0].id
-    knames = {kname(fc), kname(fl)}
+        if len(d) == 1:
+            return d[0].targets[0].id
+        if any(isinstance(c_.func, ast.Attribute) and c_.func.attr == "_make_k" for c_ in calls_in(f.node)):
+            return None                                   # the slope array is used in place (no local)
+        raise AnalysisError("%s: slope array from _make_k not found" % f.key)
+    knames = {kname(fc), kname(fl)} - {None}
 
     def atom(e):
         e2 = _strip(e)
         if e2 is not e:
             return None
+        if isinstance(e, ast.Call) and isinstance(e.func, ast.Attribute) and e.func.attr == "_make_k":
+            return "k"
         if isinstance(e, ast.Attribute) and isinstance(e.value, ast.Name):
             return e.attr            # any curve parameter (SD, ND, k_1, ...) is a symbol of its own
         if isinstance(e, ast.Name) and e.id == ld_name:
